@@ -25,8 +25,14 @@ def gather_programs(chk, quick, rng, W):
     progs = r.cases
     r.cases = []
     if quick and len(progs) > 1500:
+        # stratified: every focus construct of the catalogue is kept at least once, the rest is a seeded sample
         rng.shuffle(progs)
-        progs = progs[:1500]
+        seen, first, rest = set(), [], []
+        for c in progs:
+            f = c.get("focus", "")
+            (rest if f in seen else first).append(c)
+            seen.add(f)
+        progs = (first + rest)[:max(1500, len(first))]
     for c in progs:
         c["cls"] = "ast"
     cases += progs
@@ -89,7 +95,8 @@ def run(chk):
     chk.rule = ("programs: (a) bundles of the j5s language model J5Schema/J5Compile (focus-exhaustive catalogue of field types, references, imports, "
                 "services with every verb / path pattern, topics), (b) single-construct files of J5Lang (every field kind, cardinality, presence and "
                 "rule in object / request / response / topic position), (c) entity declarations of J5Entity, (d) the repository's hand-written proto "
-                "trees and j5s test package, (e) recursive / flattened-recursive shapes; each is compiled and run through the stages of "
+                "trees and j5s test package, (e) recursive / flattened-recursive shapes, (f, C15 only) the raw proto3 descriptor sets of "
+                "spec/ProtoShapes.tla; each is compiled and run through the stages of "
                 "spec/Pipeline.tla. non-trivial = the program compiles so that the stages run; distinct by program")
     chk.assumptions += [
         "descriptor equivalence for C05 normalises: empty option messages = absent, effective JSON names, order of extension declarations and "
@@ -103,7 +110,43 @@ def run(chk):
     cases = gather_programs(chk, quick, rng, W)
     res = chk.replay("pipeline", cases, "pipe", workers=W, timeout="90s")
     chk.absorb("pipeline", cases, res, crash_sig=crash_sig(prop))
+    if prop == "C15":
+        # "... and from generated raw proto files using the J5-supported subset": the descriptor sets of ProtoShapes (C18's
+        # program space: every scalar kind and cardinality, oneof forms, maps, well-known types, message graphs, consistent
+        # and inconsistent j5 / validate / list annotations). Sets the reader rejects are C18's subject and skipped.
+        import p_shapes
+        shapes, seen = [], set()
+        for name, cfg, tiers in p_shapes.EXHAUSTIVE:
+            if chk.tier not in tiers or (quick and name in ("focus_ann", "graph3")):
+                continue
+            r2 = chk.tlc("ProtoShapesMC.tla", cfg, "shapes_" + name, workers=W, timeout=3000)
+            for c in r2.cases:
+                k = p_shapes.case_key(c)
+                if k not in seen:
+                    seen.add(k)
+                    shapes.append(c)
+            r2.cases = []
+        sres = chk.replay("shapes-c15", shapes, "shapes", workers=W, timeout="30s")
+        chk.absorb("shapes-c15", shapes, sres, crash_sig=crash_sig(prop))
+        chk.extra_cov["raw_proto_descriptor_sets"] = len(shapes)
+        chk.extra_cov["raw_proto_descriptor_sets_round_tripped"] = sum(1 for e in sres if (e.get("out") or {}).get("nontrivial"))
     skipped = sum(1 for e in res if (e.get("out") or {}).get("skip"))
+    empty = sum(1 for e in res if (e.get("out") or {}).get("note") == "EMPTY-PROGRAM")
+    if empty:
+        chk.machinery_errors.append("%d programs compiled to no file at all (harness does not read the case): the stages would hold vacuously" % empty)
+    by_cls = {}
+    for c, e in zip(cases, res):
+        o = e.get("out") or {}
+        k = (c.get("cls") or ("lang" if "lang" in c else "rules" if "rules" in c else "?")).split(":")[0]
+        n = by_cls.setdefault(k, {"programs": 0, "ran": 0, "files": 0})
+        n["programs"] += 1
+        if o.get("nontrivial"):
+            n["ran"] += 1
+            n["files"] += (o.get("obs") or {}).get("files", 0)
+    chk.extra_cov["programs_by_class"] = by_cls
+    for k, n in by_cls.items():
+        if n["programs"] >= 20 and n["ran"] * 2 < n["programs"]:
+            chk.machinery_errors.append("program class %s: only %d of %d programs ran through the stages" % (k, n["ran"], n["programs"]))
     chk.extra_cov["programs"] = len(cases)
     chk.extra_cov["programs_rejected_by_compiler"] = skipped
     # direction T
